@@ -4,7 +4,13 @@ import RscelModel.Model.WF
 import RscelModel.Driver.AstJson
 import RscelModel.Driver.C02Spec
 import RscelModel.Driver.SerdeWire
+import RscelModel.Driver.Spans
+import RscelModel.Model.Params
 open Rscel
+
+def showNames (ns : List Str) : String :=
+  let hs := (ns.map Wire.hexOfStr).toArray.qsort (· < ·)
+  String.intercalate " " (s!"P:{hs.size}" :: hs.toList)
 
 def handle (line : String) : String :=
   match (line.trimAscii.toString.splitOn " ").filter (· ≠ "") with
@@ -53,6 +59,38 @@ def handle (line : String) : String :=
       | some r => r
       | none => "bad-request"
     else if cmd == "c02spec" then C02.specAnswer args
+    else if cmd == "spantree" || cmd == "parseloc" then
+      let src := match args with | [h] => Wire.strOfHex h | [] => some [] | _ => none
+      match src with
+      | some src => if cmd == "spantree" then Wire.spanTreeAnswer src else Wire.parseLocAnswer src
+      | none => "bad-request"
+    else if cmd == "spancheck" then
+      -- spancheck <hexsrc|-> <tree in prefix form>: the verified checker on a span tree
+      match args with
+      | h :: rest =>
+        (match (if h == "-" then some [] else Wire.strOfHex h), Wire.readTree 4096 rest with
+         | some src, some (t, []) => Wire.spanCheckAnswer src t
+         | _, _ => "bad-request")
+      | [] => "bad-request"
+    else if cmd == "params" then
+      -- params <hexsrc>: the reported parameter set, sorted
+      let src := match args with | [h] => Wire.strOfHex h | [] => some [] | _ => none
+      match src with
+      | some src =>
+        (match parseProgram lazySrc src with
+         | .error _ => "E"
+         | .ok a => showNames (params a))
+      | none => "bad-request"
+    else if cmd == "filterparams" then
+      -- filterparams <env> <hexsrc>: the reported set after filter_from_bindings against the environment
+      match (do
+        let (env, rest) ← Wire.parseEnv args
+        let src ← match rest with | [h] => Wire.strOfHex h | [] => some [] | _ => none
+        match parseProgram lazySrc src with
+        | .error _ => pure "E"
+        | .ok a => pure (showNames (filterFromBindings (stdBuiltins 0) env (params a)))) with
+      | some r => r
+      | none => "bad-request"
     else if cmd == "wf" then
       match Wire.parseVal args with
       | some (.code c, _) => wfDiag c
